@@ -1280,6 +1280,150 @@ def check_expect(goline, exp):
     return None
 
 
+# ------------------------------------------------------------------ family "unused typedefs under same-named scopes"
+# resolveTypedefs is the only place where a typedef that nothing uses gets resolved: every one of them has to be
+# swept.  Two scopes with the same path of names (a grouping and a container / list / rpc / notification of one name,
+# or groupings under same-named parents) each declare a typedef of the same name that nobody uses; one or both are
+# faulty.  Every faulty typedef must be reported: error presence is compared with the model (which resolves every
+# typedef) and, on the implementation alone, an error position inside EACH faulty typedef statement is required.
+# Every case is run several times (map iteration order varies from run to run).
+
+TWIN_FAULTS = ["unknown-name", "unknown-prefix", "self", "self-union", "invisible", "fd-missing", "fd-other",
+               "dup-enum", "idref-nobase", "range-bad", "fd-range"]
+
+
+def twin_variant(rnd, which, fa, fb):
+    """which: kind of the data node twin; fa / fb: fault class of the typedef in the grouping / in the twin, or None"""
+    m = Module("m0", False, "p", None)
+    other = Module("m1", False, "q", None)
+    m.imports.append(("o", "m1"))
+    name = rnd.choice(["x", "box", "t0"])
+    tname = rnd.choice(NAMES)
+
+    def scope(parent, kind, nm):
+        c = Scope(kind, nm, m, parent)
+        parent.kids.append(c)
+        return c
+
+    def faulty(sc, fault):
+        d = Typedef(tname, sc)
+        if fault is None:
+            d.type = TRef(rnd.choice(["int8", "string", "boolean"]))
+        elif fault == "unknown-name":
+            d.type = TRef(rnd.choice(["nosuch", "p:nosuch", "o:nosuch"]))
+        elif fault == "unknown-prefix":
+            d.type = TRef("zz:" + tname)
+        elif fault == "self":
+            d.type = TRef(rnd.choice([tname, "p:" + tname]))
+        elif fault == "self-union":
+            d.type = TRef("union")
+            d.type.members = [TRef("string"), TRef(tname)]
+        elif fault == "invisible":
+            d.type = TRef("hidden")                 # declared in a sibling scope only
+        elif fault == "fd-missing":
+            d.type = TRef("decimal64")
+        elif fault == "fd-range":
+            d.type = TRef("decimal64")
+            d.type.fd = 19
+        elif fault == "fd-other":
+            d.type = TRef("int32")
+            d.type.fd = 2
+        elif fault == "dup-enum":
+            d.type = TRef("enumeration")
+            d.type.enums = ["e0", "e1", "e0"]
+        elif fault == "idref-nobase":
+            d.type = TRef("identityref")
+        elif fault == "range-bad":
+            d.type = TRef("int8")
+            d.type.range = "5..1"
+        if rnd.random() < 0.3:
+            d.units = rnd.choice(UNITS[:3])
+        sc.typedefs.append(d)
+        return d
+    side = Scope("container", "side", m, m.top)
+    m.top.kids.append(side)
+    h = Typedef("hidden", side)
+    h.type = TRef("int8")
+    side.typedefs.append(h)
+    if which.startswith("nested-"):
+        # groupings of one name under a grouping and a data node of one name
+        pa = scope(m.top, "grouping", name)
+        pb = scope(m.top, which[len("nested-"):], name)
+        a = scope(pa, "grouping", "g")
+        b = scope(pb, "grouping", "g")
+    elif which == "input":
+        # rpc x { input { typedef t } }  and  grouping x { grouping input { typedef t } }
+        pa = scope(m.top, "grouping", name)
+        a = scope(pa, "grouping", "input")
+        pb = scope(m.top, "rpc", name)
+        b = scope(pb, "input", "input")
+    else:
+        a = scope(m.top, "grouping", name)
+        b = scope(m.top, which, name)
+    if rnd.random() < 0.5:
+        m.top.kids.reverse()
+    da, db = faulty(a, fa), faulty(b, fb)
+    lf_ = Leaf("ok_leaf")
+    lf_.type = TRef("string")
+    m.top.leaves.append(lf_)
+    S = Schema([m, other] if rnd.random() < 0.5 else [other, m])
+    return S, [d for d, f in ((da, fa), (db, fb)) if f is not None]
+
+
+def typedef_lines(m):
+    """{id(typedef): (first line, last line)} in the rendered text of module m (1-based)"""
+    import re
+    lines = render_module(m).split("\n")
+    starts = [i + 1 for i, l in enumerate(lines) if re.match(r"^\s*typedef \S+ \{$", l)]
+    tds = [td for sc in m.top.all() for td in sc.typedefs]
+    assert len(starts) == len(tds), (len(starts), len(tds))
+    return {id(td): (ln, ln + len("\n".join(render_typedef(td, 0)).split("\n")) - 1) for td, ln in zip(tds, starts)}
+
+
+def twin_cases(rnd, tier):
+    out = []
+    kinds = ["container", "list", "notification", "rpc", "input", "nested-container", "nested-list", "nested-grouping"]
+    reps = 6 if tier == "quick" else 12
+    combos = []
+    for k in kinds:
+        f1, f2 = rnd.choice(TWIN_FAULTS), rnd.choice(TWIN_FAULTS)
+        combos += [(k, f1, None), (k, None, f2), (k, f1, f2)]
+    for f in TWIN_FAULTS:
+        combos.append((rnd.choice(kinds), f, f))
+    if tier != "quick":
+        combos += [(rnd.choice(kinds), rnd.choice(TWIN_FAULTS + [None]), rnd.choice(TWIN_FAULTS)) for _ in range(150)]
+    for k, fa, fb in combos:
+        if k == "nested-grouping":
+            k = "nested-container" if rnd.random() < 0.5 else "nested-notification"
+        S, bad = twin_variant(rnd, k, fa, fb)
+        go, ml, texts = lines_of(S)
+        pos = []
+        for m in S.mods:
+            tl = typedef_lines(m)
+            for d in bad:
+                if id(d) in tl:
+                    pos.append([m.name + ".yang", tl[id(d)][0], tl[id(d)][1]])
+        assert len(pos) == len(bad)
+        for _ in range(reps):
+            out.append(("twins:%d-faulty" % len(bad), True, go, ml, texts, 0, {"__errpos__": pos}))
+    return out
+
+
+def check_errpos(goline, exp):
+    """every faulty typedef statement has an error located inside it"""
+    g = json.loads(goline)
+    run = g["runs"][-1]
+    got = []
+    for p_ in run.get("errpos") or []:
+        f = p_.split(":")
+        if len(f) >= 3 and f[1].lstrip("-").isdigit():
+            got.append((f[0], int(f[1])))
+    for fn, a, b in exp["__errpos__"]:
+        if not any(g_[0] == fn and a <= g_[1] <= b for g_ in got):
+            return "no error is reported for the typedef at %s:%d-%d (errors: %s)" % (fn, a, b, run["errors"][:4])
+    return None
+
+
 # ------------------------------------------------------------------ comparison
 
 def unhex(h):
@@ -1453,6 +1597,9 @@ def build_cases(tier, seed):
             go, ml, texts = lines_of(S)
             cases.append(("fault:" + f, True, go, ml, texts, 0, None))
         hist["fault:" + f] = made
+    tc = twin_cases(rnd, tier)
+    cases += tc
+    hist["twins:runs"] = len(tc)
     pc = pinned_cases(rnd, tier)
     cases += pc
     hist["pinned:ok"] = sum(1 for c in pc if c[0] == "pinned:ok")
@@ -1486,7 +1633,12 @@ def run(res, tier, seed, proof):
     for c, g, m in zip(cases, go, ml):
         label, intent, gl, mll, texts, nbad, exp = c
         why, o = compare(g, m, intent, nbad)
-        if exp is not None:
+        if exp is not None and "__errpos__" in exp:
+            if why is None and not g.startswith(("PANIC", "CRASH", "NOT-RUN")):
+                w2 = check_errpos(g, exp)
+                if w2 is not None:
+                    why, o = "unused typedef not swept: " + w2, "twins-oracle"
+        elif exp is not None:
             # oracle on the implementation alone (not model-backed): the binding is known by construction
             w2 = check_expect(g, exp) if not g.startswith(("PANIC", "CRASH", "NOT-RUN")) else "implementation: " + g[:100]
             if w2 is not None:
@@ -1555,7 +1707,11 @@ def replay(rep, res):
     print("impl :", go[:3000])
     print("model:", ml[:3000])
     why, o = compare(go, ml, rep.get("intent"), rep.get("nbad", 0))
-    if rep.get("expect"):
+    if rep.get("expect") and "__errpos__" in rep["expect"]:
+        w2 = check_errpos(go, rep["expect"])
+        if w2 is not None:
+            why, o = "unused typedef not swept: " + w2, "twins-oracle"
+    elif rep.get("expect"):
         w2 = check_expect(go, rep["expect"])
         if w2 is not None:
             why, o = "pinned revision oracle: " + w2, "pinned-oracle"
